@@ -13,7 +13,8 @@ Record Fr (s s' : state) : Prop := mkFr {
   fr_ridx : s_ridx s' = s_ridx s \/ parked s = true /\ s_ridx s' = 0;
   fr_att : s_att s' = s_att s \/ parked s = true /\ 1 <= s_att s' <= 2;
   fr_rcall : rcall_active s' = true -> rcall_active s = true \/ parked s = true;
-  fr_cf : s_cf s' = s_cf s
+  fr_cf : s_cf s' = s_cf s;
+  fr_looper : s_looper s' = s_looper s \/ s_looper s' = None
 }.
 (* what handling a fetch reply (KFetchResp) may do *)
 Record FrK (s : state) (r : res unit) (s' : state) : Prop := mkFrK {
@@ -22,14 +23,15 @@ Record FrK (s : state) (r : res unit) (s' : state) : Prop := mkFrK {
   fk_parked : parked s' = true -> is_some (s_mblock s) = true /\ r = Ok tt;
   fk_ridx : s_ridx s' = 0;
   fk_att : 1 <= s_att s' <= 2;
-  fk_cf : s_cf s' = s_cf s
+  fk_cf : s_cf s' = s_cf s;
+  fk_looper : s_looper s' = s_looper s \/ s_looper s' = None
 }.
 
 Lemma Fr_refl s : Fr s s.
 Proof. constructor; auto. Qed.
 Lemma Fr_trans a b c : Fr a b -> Fr b c -> Fr a c.
 Proof.
-  intros [r1 d1 p1 i1 a1 c1 f1] [r2 d2 p2 i2 a2 c2 f2]. constructor.
+  intros [r1 d1 p1 i1 a1 c1 f1 l1] [r2 d2 p2 i2 a2 c2 f2 l2]. constructor.
   - destruct r2 as [->| ->]; auto.
   - auto.
   - auto.
@@ -37,6 +39,7 @@ Proof.
   - destruct a2 as [->|[? ?]]; auto.
   - intro H. destruct (c2 H) as [H1|H1]; auto.
   - congruence.
+  - destruct l2 as [->| ->]; auto.
 Qed.
 
 Definition no_idx (o : list output) : Prop := retry_idxs o = [].
@@ -155,7 +158,7 @@ Lemma finish_block_fr s r s' o : finish_block (run f) s = (r, s', o) -> fuel_ok 
 Proof.
   intros H Hf. unfold finish_block in H. mi H; fuel_split; use_ih; try fr_done.
   (* the parked reply *)
-  all: match goal with K : FrK _ _ _ |- _ => destruct K as [r2 d2 p2 i2 a2 c2] end; psimpl; rewrite ?D; auto.
+  all: match goal with K : FrK _ _ _ |- _ => destruct K as [r2 d2 p2 i2 a2 c2 l2] end; psimpl; rewrite ?D; auto.
 Qed.
 
 Ltac specs :=
@@ -203,7 +206,7 @@ Proof. intros H Hf. cbn [body] in H. mi H; fuel_split; use_ih; specs; fr_done. Q
 
 Lemma FrK_nonpark s r Y : s_mblock s = None -> Fr (set_req None (set_att 1 (set_ridx 0 s))) Y -> FrK s r Y.
 Proof.
-  intros Hm [r2 d2 p2 i2 a2 c2 f2]. unfold parked in *. psimpl. rewrite Hm in *.
+  intros Hm [r2 d2 p2 i2 a2 c2 f2 l2]. unfold parked in *. psimpl. rewrite Hm in *.
   constructor.
   - right. destruct r2 as [->| ->]; reflexivity.
   - exact d2.
@@ -211,12 +214,13 @@ Proof.
   - destruct i2 as [->|[? _]]; [reflexivity | discriminate].
   - destruct a2 as [->|[? _]]; [lia | discriminate].
   - exact f2.
+  - exact l2.
 Qed.
 Lemma FrK_nonpark_retry s r Y : s_mblock s = None -> Fr (set_req None (set_att 1 (set_ridx 0 s))) Y ->
   FrK s r (set_rcall (Some 0) (set_att (s_att Y + 1) Y)).
 Proof.
-  intros Hm F. destruct (FrK_nonpark s r Y Hm F) as [r2 d2 p2 i2 a2 f2].
-  destruct F as [_ _ _ _ a3 _ _]. unfold parked in *. psimpl. rewrite Hm in *.
+  intros Hm F. destruct (FrK_nonpark s r Y Hm F) as [r2 d2 p2 i2 a2 f2 l2].
+  destruct F as [_ _ _ _ a3 _ _ _]. unfold parked in *. psimpl. rewrite Hm in *.
   constructor; psimpl; auto.
   - unfold parked. psimpl. rewrite Hm. exact p2.
   - destruct a3 as [->|[? _]]; [lia | discriminate].
